@@ -1,5 +1,6 @@
 //! fv — conformance / exploration harness for caio/foca (see /verif/DESIGN.md)
 mod c01;
+mod c14;
 mod cluster;
 mod codec;
 mod handler;
@@ -7,6 +8,7 @@ mod id;
 mod node;
 mod rnd;
 mod sim;
+mod twin;
 
 use std::collections::HashMap;
 
@@ -80,6 +82,18 @@ fn main() {
             };
             tw.flush();
             println!("{}", cov.json(&tw));
+            return;
+        }
+        "twin" => {
+            let (base, ins) = twin::run(seed, get(&kv, "runs", 40), get(&kv, "steps", 200), &mut tw);
+            tw.flush();
+            println!("{{\"events\":{},\"panics\":{},\"cov_base\":{},\"cov_inserted\":{}}}", tw.events, tw.panics, base, ins);
+            return;
+        }
+        "c14" => {
+            let (sets, rounds) = c14::run(seed, get(&kv, "sets", 200), get(&kv, "nmax", 6), &mut tw);
+            tw.flush();
+            println!("{{\"events\":{},\"panics\":{},\"cov_sets\":{},\"cov_rounds\":{}}}", tw.events, tw.panics, sets, rounds);
             return;
         }
         "c01" => {
